@@ -65,6 +65,9 @@ func NewBlockError(opts ...BlockErrorOption) *BlockError {
 }
 
 func (e *BlockError) ResetBlockError(opts ...BlockErrorOption) {
+	// start from an empty error: what the options do not set must not be left over from the
+	// previous use of the object (the rule and value of an earlier, unrelated block)
+	*e = BlockError{blockType: BlockTypeUnknown}
 	for _, opt := range opts {
 		opt(e)
 	}
